@@ -119,6 +119,11 @@ class Laws:
                 ctx.violation("c15_comparison_with_foreign_raised", dict(w, error=repr(e)))
 
 
+def schedule_key(S):
+    return [[(so.operation.operation_id, so.start_time, so.machine_id) for so in lst]
+            for lst in S.schedule]
+
+
 def build_schedule(inst, instance, history):
     from job_shop_lib.dispatching import Dispatcher
     d = Dispatcher(instance)
@@ -309,6 +314,26 @@ def run_case(ctx, case):
         except Exception as e:
             ctx.violation("c15_schedule_dict_round_trip_raised", {"error": repr(e)[:200]})
         ctx.count("schedule_dict_round_trips")
+        # schedules decoded from per-machine job sequences, several for one instance object
+        try:
+            run2 = Run(inst)
+            while not run2.done():
+                o2, m2 = run2.choose(rng, rng.choice(["random_ready", "one_job_first", "latest_start"]))
+                run2.dispatch(o2, m2)
+            hist2 = list(run2.r.history)
+            seq = lambda S: [[so.job_id for so in lst] for lst in S.schedule]
+            T1, T2 = build_schedule(inst, B, hist), build_schedule(inst, B, hist2)
+            D1 = Schedule.from_job_sequences(A, seq(T1))
+            L.expect(D1, T1, True, "decoded from job sequences vs dispatcher-built", None)
+            D2 = Schedule.from_job_sequences(A, seq(T2))
+            different = schedule_key(T1) != schedule_key(T2)
+            L.expect(D2, T2, True, "second decode for the same instance object", None)
+            L.expect(D1, T1, True, "first decode, after a second decode for the same instance", None)
+            if different:
+                L.expect(D1, D2, False, "decodes of two different sequence sets", None)
+            ctx.count("decoded_schedule_pairs")
+        except Exception as e:
+            ctx.violation("c15_job_sequence_decode_raised", {"error": repr(e)[:200]})
     ctx.evaluations += 1
     if len(ctx.samples) < 3:
         ctx.samples.append({"instance": inst, "mutation": what, "history": hist})
